@@ -59,7 +59,7 @@ def h_transitions(n: int, k1: int, h1: int, f1: int, j1: int, k2: int, h2: int, 
     pre: 0 <= h1 <= HMAX and 0 <= h2 <= HMAX and 0 <= h3 <= HMAX and pinned("h1", h1)
     pre: -FMAX <= f1 <= FMAX and -FMAX <= f2 <= FMAX and -FMAX <= f3 <= FMAX and pinned("f1", f1)
     pre: JMIN <= j1 <= 1 and JMIN <= j2 <= 1 and JMIN <= j3 <= 1
-    pre: n < 3 or (h3 <= 1 and -1 <= f3 <= 1 and h2 <= 1 and -1 <= f2 <= 1 and j2 >= 0 and j3 >= 0 and j1 >= 0)
+    pre: n < 3 or (h3 <= 1 and -1 <= f3 <= 1 and h2 <= 1 and -1 <= f2 <= 1 and j2 == 0 and j3 >= 0 and j1 == 0)
     pre: pinned("named", named)
     post: _
     """
